@@ -62,6 +62,18 @@ def _drive(args):
             '_fins': fins}
 
 
+def _drive_reload(args):
+    """the same histories in short-lived processes of their own, with the module re-loaded between the first and the
+    second finalisation"""
+    drv.RELOAD = True
+    try:
+        t = _drive(args)
+    finally:
+        drv.RELOAD = False
+    t['_desc'] += ' [cardutil.mciipm re-loaded between the first two finalisations]'
+    return t
+
+
 def _drive_ipm(args):
     """the same histories on the real IpmWriter (dict records), judged by Trace_Ipm"""
     from . import ipmc, isoc
@@ -165,6 +177,10 @@ def run(rep, wd, tier, seed):
     touts = isocheck.threaded('harness.c11', '_drive', tj, procs=2)
     isocheck.mark_threaded([touts])
     traces += touts
+    # tid % 3 == 2 selects the realisation whose finalisations are separate statements (a re-load can come between them)
+    rj = [(j[0], 300002 + 3 * i, j[2], j[3], False) for i, j in enumerate([j for j in jobs if sum(1 for h in j[3] if h[0] != 'w') >= 2][:: 5][:60])]
+    from .isocheck import _pool
+    traces += _pool(_drive_reload, rj, 4)
     lj = [(j[0], 200000 + j[1], j[2], j[3], False) for j in jobs[1:: max(1, len(jobs) // 80)]]
     traces += isocheck.lockstep('harness.c11', '_drive', lj, procs=4)
     rep.sample({'behaviour': traces[0]['_desc']})
